@@ -3,4 +3,4 @@
 From Coq Require Import Extraction ExtrOcamlBasic NArith ZArith List.
 From AHK Require Import Lib.ByteStr Model.Bcast.
 Separate Extraction Z.of_N Z.to_N N.of_nat N.to_nat
-  detect apply event_begin event_end falls_back plain_adv notify run from_bytes utf8_valid.
+  detect apply event_begin event_end poll_begin poll_end falls_back plain_adv notify run from_bytes utf8_valid.
